@@ -43,7 +43,7 @@ type c29Case struct {
 	Sizes   []int             `json:"file_sizes"`       // one entry per file (/d/f0, /d/f1)
 	Targets []string          `json:"targets"`          // w1 | w2 | missing (repetition = duplicated id)
 	Engine  map[string]string `json:"engine,omitempty"` // w1/w2 -> reject | partial (absent = accept)
-	Perm    string            `json:"perm"`             // default (uid 0, gid 0, mode 0) | 1000:1000:0644
+	Perm    string            `json:"perm"`             // default (uid 0, gid 0, mode 0) | 1000:2000:0640
 }
 
 type c29Msg struct {
@@ -81,7 +81,7 @@ func c29Perm(p string) (uid, gid int, mode int64) {
 	if p == "default" {
 		return 0, 0, 0
 	}
-	return 1000, 1000, 0o644
+	return 1000, 2000, 0o640 // three different values: a swapped argument shows
 }
 
 var c29Missing = strings.Repeat("f", 64)
@@ -187,7 +187,7 @@ func c29Cases(thorough bool) []c29Case {
 									accepting = true
 								}
 							}
-							for _, perm := range []string{"default", "1000:1000:0644"} {
+							for _, perm := range []string{"default", "1000:2000:0640"} {
 								if perm != "default" && !accepting {
 									continue
 								}
@@ -221,7 +221,7 @@ func c29Explore(t *testing.T, c *vcore.Ctx) {
 		c.HarnessError("setup: %v", err)
 		return
 	}
-	c.SetRule(fmt.Sprintf("paths {rpc.Vibranium.Send -> toSendLargeFileChunks -> Calcium.SendLargeFile, Calcium.Send} x file sizes {0,1,%d,%d,%d,%d,%d,%d,%d} (chunk size %d) x 1 or 2 files x targets {[w1],[w1,w2],[w1,missing],[missing],[w1,w1]} x engine behaviour per existing target {accept, reject without reading, fail after reading one chunk} x owner/mode {all zero, 1000:1000:0644 (only where some existing target accepts)}; one execution per case in a bubble; "+
+	c.SetRule(fmt.Sprintf("paths {rpc.Vibranium.Send -> toSendLargeFileChunks -> Calcium.SendLargeFile, Calcium.Send} x file sizes {0,1,%d,%d,%d,%d,%d,%d,%d} (chunk size %d) x 1 or 2 files x targets {[w1],[w1,w2],[w1,missing],[missing],[w1,w1]} x engine behaviour per existing target {accept, reject without reading, fail after reading one chunk} x owner/mode {all zero, 1000:2000:0640 (only where some existing target accepts)}; one execution per case in a bubble; "+
 		"non-trivial = distinct case in which a non-empty file was compared byte for byte on an accepting target or a failure path (missing / rejecting / aborting / duplicated target) was exercised",
 		c29Chunk-1, c29Chunk, c29Chunk+1, 2*c29Chunk, 2*c29Chunk+1, 11*c29Chunk, 12*c29Chunk+1, c29Chunk))
 	c.Assume("engines are the stateful fakev engines: 'reject' returns an error without reading the content, 'partial' reads one chunk and returns an error without draining (both are what the docker engine does when CopyToContainer fails early)")
